@@ -274,12 +274,22 @@ func c07Run(c *mon.Ctx, r *mon.Rand) {
 							// name on this scope (never recorded on) while it is closed and gets
 							// its final report
 							var creator chan struct{}
-							if slowAlloc && wr.Chance(1, 2) {
+							if wr.Chance(1, 2) {
 								creator = make(chan struct{})
-								sc, nm := h.sc, fmt.Sprintf("extra_%d_%d_%d", e, w, i)
+								sc, nm, slow := h.sc, fmt.Sprintf("extra_%d_%d_%d", e, w, i), slowAlloc
 								go func() {
 									defer close(creator)
-									sc.Counter(nm)
+									// first uses of every kind (timers are not buffered but live in
+									// a map of the scope like the others), a few times, while the
+									// scope is closed, reported for the last time and dropped
+									for k := 0; k < 6; k++ {
+										if slow || k%2 == 0 {
+											sc.Counter(fmt.Sprintf("%s_%d", nm, k))
+										}
+										sc.Timer(fmt.Sprintf("%s_t%d", nm, k))
+										sc.Gauge(fmt.Sprintf("%s_g%d", nm, k))
+										runtime.Gosched()
+									}
 								}()
 								runtime.Gosched()
 							}
